@@ -772,6 +772,7 @@ func (s *Server) pushUpdateMutations(muts []tracerMutation) error {
 	// notify without a response
 	s.CallCount++
 
+	verifPoint(s, "srv:push")
 	// TODO failsafe retry (stateful)
 	return c.Notify(ClientUpdateMutations.Value, updateMuts)
 }
@@ -797,6 +798,7 @@ func (s *Server) pushUpdateLatest(data *tracerData) error {
 	// fmt.Printf("[S] update %v\n", update)
 	// fmt.Printf("[S] time %v\n", data.mTime)
 
+	verifPoint(s, "srv:push")
 	// TODO failsafe retry (stateful)
 	return c.Notify(ClientUpdate.Value, update)
 }
@@ -951,6 +953,7 @@ func (s *Server) RemoteAdd(
 	if s.Mach.Not1(ssS.Start) {
 		return am.ErrCanceled
 	}
+	defer verifPoint(s, "srv:reply")
 	s.lockExport.Lock()
 	defer s.lockExport.Unlock()
 
@@ -1017,6 +1020,7 @@ func (s *Server) RemoteRemove(
 	if s.Mach.Not1(ssS.Start) {
 		return am.ErrCanceled
 	}
+	defer verifPoint(s, "srv:reply")
 	s.lockExport.Lock()
 	defer s.lockExport.Unlock()
 
@@ -1048,6 +1052,7 @@ func (s *Server) RemoteSet(
 	if s.Mach.Not1(ssS.Start) {
 		return am.ErrCanceled
 	}
+	defer verifPoint(s, "srv:reply")
 	s.lockExport.Lock()
 	defer s.lockExport.Unlock()
 
